@@ -179,7 +179,7 @@ func IsLeakPanic(r interface{}) bool {
 		return false
 	}
 	s := fmt.Sprint(r)
-	return strings.Contains(s, "blocked goroutines remain") || strings.Contains(s, "deadlock")
+	return strings.Contains(s, "blocked goroutines remain")
 }
 
 // Main is the entry point of every check binary.
